@@ -60,6 +60,10 @@ def gen_case(rng, n_steps, trace):
             return sg[t['name']]
         return dict(t, args=[sub(a, sg) for a in t.get('args', [])])
     rules = []
+    if rng.random() < 0.35:      # two rules sharing an identical open subterm whose variables first occur in different orders
+        sh = app('g', ev('X', S), ev('Y', S))
+        rules.append({'sort': S, 'l': app('f', sh), 'r': app('g', ev('Y', S), ev('X', S))})
+        rules.append({'sort': S, 'l': app('g', ev('Y', S), sh), 'r': sh})
     for i in range(rng.choice([2, 3, 4])):
         vs = ['X', 'Y', 'Z'][:rng.choice([0, 1, 2, 2, 3])]
         l = open_term(2, vs) if vs else app(rng.choice(consts))
@@ -89,7 +93,12 @@ def gen_case(rng, n_steps, trace):
             ri, m = rng.choice(cands)
             steps.append({'rule': ri, 'subst': m})
             cur = sub(rules[ri]['r'], m)
-    return {'cmd': 'ktrace', 'trace': trace, 'optimize': rng.random() < 0.5,
+    reported = [None] * len(steps)
+    if steps and rng.random() < 0.4:          # the trace reports stale / unrelated post-configurations
+        for k in range(len(steps)):
+            if rng.random() < 0.6:
+                reported[k] = ground(1)
+    return {'cmd': 'ktrace', 'trace': trace, 'optimize': rng.random() < 0.5, 'reported': reported,
             'definition': {'sorts': sorts, 'symbols': symbols, 'rules': rules}, 'init': init, 'steps': steps}
 
 
@@ -126,8 +135,9 @@ def run(v, tier):
     cases, traces = [], []
     acc = ref = 0
     for q, r in zip(reqs, res):
-        c = {'out': 'ok' if r['out'] == 'ok' else 'raise', 'exc': r['out'], 'req': {k: q[k] for k in ('definition', 'init', 'steps')},
-             'rewrites_def': r.get('rewrites_def', pi2v.EV(0)), 'init': r.get('init', pi2v.EV(0)), 'steps': r.get('steps', []), 'convs': r.get('convs', [])}
+        c = {'out': 'ok' if r['out'] == 'ok' else 'raise', 'exc': r['out'], 'req': {'definition': q['definition'], 'init': q['init'], 'steps': q['steps'], 'reported': [x if x is not None else {'k': 'same'} for x in q['reported']]},
+             'rewrites_def': r.get('rewrites_def', pi2v.EV(0)), 'init': r.get('init', pi2v.EV(0)), 'steps': r.get('steps', []), 'convs': r.get('convs', []),
+             'hints_out': (r.get('hints_out') or 'raise')[:5].rstrip(':'), 'hints_claims': r.get('hints_claims', [])}
         cases.append(c)
         acc += sum(1 for s in c['steps'] if s['out'] == 'ok')
         ref += sum(1 for s in c['steps'] if s['out'] != 'ok')
